@@ -303,6 +303,14 @@ class C13(Prop):
             d[0][1].append(d[1][0]) if not isin(d[1][0], d[1][1]) else None  # nested key
         elif r < 0.2 and rest:
             d[0][1].append(rest[0])  # duplicated value -> AssertionError expected
+        elif r < 0.45:
+            # an emptied (already grouped) key listed BEFORE / AFTER the group that holds it
+            spare = [u for u in U if not isin(u, pool) and u is not NAN]
+            if spare and d:
+                e = rng.choice(spare)
+                owner = rng.choice(d)
+                owner[1].append(e)
+                d.insert(rng.choice([0, 0, len(d)]), [e, []])
         init = {"kind": "dict", "v": [[enc(k), encs(vs)] for k, vs in d]}
         return init, self.dict_init_valid(init)
 
